@@ -1,0 +1,1 @@
+//! Hooks for property C10 (empty until needed).
